@@ -657,47 +657,72 @@ def forged_signature(data, sign_alg, blob_name):
 
 
 class ForgedHostKey:
-    """host key object for a server Transport: presents `blob`, signs with sign_alg whatever is negotiated,
-    names blob_name in the signature blob"""
-    def __init__(self, sign_alg, blob_name, blob=None):
-        self.sign_alg, self.blob_name = sign_alg, blob_name
-        self.inner = key_for(sign_alg)
-        self.blob = blob if blob is not None else self.inner.asbytes()
+    """host key object for a server Transport: signs with sign_alg whatever is negotiated and names blob_name in
+    the signature blob, presenting the key that can make that signature (or `blob`).  With honest_first = an
+    algorithm, the first exchange is answered honestly with that algorithm (and its key) and the forgery starts
+    with the next signature, i.e. in the first re-exchange."""
+    def __init__(self, sign_alg, blob_name, blob=None, honest_first=None):
+        self.plan = [(sign_alg, blob_name)]
+        if honest_first:
+            self.plan.insert(0, (honest_first, honest_first))
+        self.fixed_blob = blob
         self.asked = []
 
+    def _cur(self):
+        return self.plan[min(len(self.asked), len(self.plan) - 1)]
+
     def asbytes(self):
-        return self.blob
+        return self.fixed_blob if self.fixed_blob is not None else key_for(self._cur()[0]).asbytes()
 
     def get_name(self):
-        return self.inner.get_name()
+        return key_for(self._cur()[0]).get_name()
 
     def sign_ssh_data(self, data, algorithm=None):
+        sign_alg, blob_name = self._cur()
         self.asked.append(algorithm)
-        return Message(forged_signature(data, self.sign_alg, self.blob_name))
+        return Message(forged_signature(data, sign_alg, blob_name))
 
 
 def enabled_of(names, universe):
     return sorted({base_alg(x) for x in names} & set(universe))
 
 
-def sig_case_client(declared, sign_alg, blob_name, disabled, universe):
+def sig_case_client(declared, sign_alg, blob_name, disabled, universe, exch="initial"):
     """the harness is the server: it offers only `declared` as host-key algorithm, the client (paramiko, with
     `disabled` host-key algorithms disabled) negotiates it; the server signs H with sign_alg / names blob_name.
-    -> record {accepted, negotiated, enabled, ...}"""
+    exch = "initial": in the first key exchange; "rekey_client" / "rekey_server": the first exchange is honest
+    (signed with the negotiated algorithm), the forged signature comes in a re-exchange started by that peer.
+    -> record {accepted, negotiated, enabled, ...}; accepted refers to the exchange that carried the forgery"""
     cert = declared.endswith(CERT)
-    hk = ForgedHostKey(sign_alg, blob_name, blob=cert_blob("rsa") if cert and SIG_FAMILY[sign_alg] == "rsa" else None)
+    rekey = exch != "initial"
+    hk = ForgedHostKey(sign_alg, blob_name, blob=cert_blob("rsa") if cert and SIG_FAMILY[sign_alg] == "rsa" else None,
+                       honest_first=base_alg(declared) if rekey else None)
     s = KSession(kex=FAST_KEX, hostkeys=[], client_kw={"disabled_algorithms": {"keys": list(disabled)}})
     s.ts.server_key_dict[declared] = hk
     enabled = enabled_of(s.tc.preferred_keys, universe)
+    want = 2 if rekey else 1
     try:
         okc, oks = s.start()
-        if not okc:
+        err = s.errors.get("client")
+        if okc and oks and rekey:
+            who = s.tc if exch == "rekey_client" else s.ts
+            try:
+                who.renegotiate_keys()
+            except Exception as e:
+                err = err or e
+            end = time.time() + 10
+            while (time.time() < end and s.tc.is_active() and s.ts.is_active()
+                   and len(s.tc.events("newkeys_in")) < 2):
+                time.sleep(0.002)
+        if not (s.tc.is_active() and s.ts.is_active()):
             s.quiesce()
+            err = err or getattr(s.tc, "saved_exception", None)
         negotiated = s.tc.host_key_type
-        accepted = bool(s.tc.events("newkeys_out")) and bool(s.tc.events("verified"))
+        accepted = len(s.tc.events("newkeys_out")) >= want and len(s.tc.events("verified")) >= want
         return {"side": "client", "declared": declared, "sign": sign_alg, "blob": blob_name, "enabled": enabled,
-                "negotiated": negotiated or "", "reached": bool(s.tc.events("verify")), "accepted": accepted,
-                "active": bool(okc), "error": "%s" % (s.errors.get("client") or "")}
+                "exch": exch, "negotiated": negotiated or "", "reached": len(s.tc.events("verify")) >= want,
+                "accepted": accepted, "first_ok": bool(okc and oks), "signatures": len(hk.asked),
+                "active": bool(s.tc.is_active()), "error": "%s" % (err or "")}
     finally:
         s.close()
 
